@@ -7,7 +7,10 @@ Record case := mkCase {
   c_obs : dopts;                                        (* what the real extractors returned *)
   c_probe_attr : list (string * option string);         (* extract_attr key *)
   c_probe_list : list (string * option (list string));  (* extract_attr_list key *)
-  c_probe_flag : list (string * bool)                   (* ident_exists key *)
+  c_probe_flag : list (string * bool);                  (* ident_exists key *)
+  (* real derives in a workspace member whose workspace root holds decoy files at the same relative
+     paths: (how the path was written, which files the derive read: "manifest" | anything else) *)
+  c_paths : list (string * string)
 }.
 
 Definition ostr_eqb := opt_eqb String.eqb.
@@ -41,6 +44,8 @@ Definition prop (c : case) : bool :=
   dopts_eqb (spec_options (c_items c)) (c_obs c) &&
   forallb (fun p => ostr_eqb (lookup_kv (fst p) (c_items c)) (snd p)) (c_probe_attr c) &&
   forallb (fun p => olist_eqb (lookup_list (fst p) (c_items c)) (snd p)) (c_probe_list c) &&
-  forallb (fun p => Bool.eqb (has_key (fst p) (c_items c)) (snd p)) (c_probe_flag c).
+  forallb (fun p => Bool.eqb (has_key (fst p) (c_items c)) (snd p)) (c_probe_flag c) &&
+  (* schema and query paths are resolved against the consumer crate's manifest directory *)
+  forallb (fun p => String.eqb (snd p) "manifest") (c_paths c).
 
 Definition wellformed (c : case) : bool := nodup_str (map key (c_items c)).
